@@ -588,7 +588,7 @@ def run(ctx):
     with ctx.pool() as pool:
         m_arr = lattice.run(ctx, pool, MOD, "work_arrays", N_SHAPES, nshards=pool.workers * 8, part="arrays")
         m_hist = lattice.run(ctx, pool, MOD, "work_histories", len(PRIMERS) * 9 * 4, part="histories")
-        parts = [("arrays", m_arr), ("histories", m_hist)]
+        parts = [("histories", m_hist), ("arrays", m_arr)]     # history-dependent findings first: they carry their history
         fam_txt = []
         for fam, n, nds, titles, pds in object_families(ctx.tier):
             m = lattice.run(ctx, pool, MOD, "work_objects", n, part=fam, nshards=pool.workers * 2 if n > 2000 else min(n, 4),
